@@ -160,7 +160,7 @@ CTL_POOL = [('freq', 1, 440), ('amp', 1, 1), ('gate', 1, 1), ('bus', 1, 0), ('t_
             ('irv', 0, 2), ('pan', 1, 0), ('out', 1, 0)]
 
 
-def random_program(rnd, n, name, *, wf=True, mce=True, bad=None):
+def random_program(rnd, n, name, *, wf=True, mce=True, bad=None, variants=False):
     """a random program of about n instructions over the C02 vocabulary (multi-output units, width-first
     units, list arguments, several output units).  Only shapes are chosen here; what the program means and
     whether it must compile is decided by the spec."""
@@ -286,7 +286,24 @@ def random_program(rnd, n, name, *, wf=True, mce=True, bad=None):
             add(Bin(rnd.choice(['+', '-', 'min']), last, R(kbad, 0)))
         last = R(len(ins), 0)
     add(Gen('Out', 2, [C(0), last], 0))
-    return Prog(name, ctl, ins)
+    p = Prog(name, ctl, ins)
+    if variants and ctl and rnd.random() < 0.4:
+        # build argument `variants`: mostly valid ones, sometimes one the writer has to refuse
+        # (name + '.' + key longer than 32 characters, unknown control, too many values)
+        vs = {}
+        for k in range(rnd.randint(1, 3)):
+            x = rnd.random()
+            c = rnd.choice(ctl)
+            if x < 0.7:
+                vs['v%d' % k] = {c['n']: rnd.randint(0, 9)}
+            elif x < 0.8:
+                vs['v%d' % k + 'x' * 32] = {c['n']: 1}
+            elif x < 0.9:
+                vs['v%d' % k] = {'nosuchcontrol': 1}
+            else:
+                vs['v%d' % k] = {c['n']: [1, 2, 3]}
+        p['variants'] = vs
+    return p
 
 
 def chain_program(rnd, n, name):
